@@ -828,6 +828,35 @@ theorem write_read_exact_text (sh : Shows) (hsh : ShowsOK sh) (t0 : Rat) (cs : L
   rw [e] at hperm
   exact hperm
 
+/-- **The `#BPMS` parameter reads back**: `",\n".join(f"{beat}={bpm}")` over number texts (non-empty, no whitespace,
+no ',' and '=') that parse back to their values is parsed by the specification into exactly the written pairs. -/
+theorem parsePairs_bpmsParam (sh : Shows) (h : ShowsParse sh) (bpms : List (Rat × Rat)) :
+    parsePairs (bpmsParam sh bpms) = some bpms :=
+  SM.parsePairs_bpmsParam sh h bpms
+
+/-- **`write_read_exact_show`**: `write_read_exact_text` with the renderer assumption per number — every text
+`sh.rat q` is a number text (non-empty, no whitespace, none of `# : ; \ / , =`) with `parseFloat (sh.rat q) = .ok q`,
+`sh.int i` has none of `# : ; \ /` and no line break — instead of the two applied-form hypotheses. -/
+theorem write_read_exact_show (sh : Shows) (hsh : ShowsOK sh) (hsp : ShowsParse sh) (t0 : Rat) (cs : List BcSnap)
+    (hwf : wfChanges cs = true) (hs : sortedSnaps cs = true) (h0 : firstAtZero cs = true)
+    (hgc : gridCompatible (grid defaultMaxDiv) cs = true) (hm : metronomeOk cs = true) (hM : ∀ c ∈ cs, c.met = 4)
+    (h : WHeader) (charts : List WChart) (w : Written) (hw : SM.write h charts = .ok w)
+    (hL : ∀ c ∈ charts, ∃ out, ChartWritten t0 cs c out)
+    (hstr : ∀ ta ∈ stringTags, CleanParam ((h.strs.lookup ta.2).getD []))
+    (hch : ∀ c ∈ charts, CleanParam c.chartType ∧ CleanParam c.description ∧ CleanParam c.difficulty ∧
+      '\n' ∉ c.chartType ∧ '\n' ∉ c.difficulty)
+    (ho : -(1000 * w.offsetSec) = t0) (hbp : changesOf w.bpms = cs) :
+    ∃ d, denote (renderWritten sh w) = some d ∧ d.offsetSec = some w.offsetSec ∧ d.bpms = some w.bpms ∧
+      d.chartsWellFormed = true ∧ d.charts.length = charts.length ∧
+      ∀ (i : Nat) (hi : i < charts.length) (hd : i < d.charts.length),
+        (d.charts[i]).wellBracketed = true ∧
+        (timedNotes w.offsetSec w.bpms d.charts[i]).Perm ((charts[i]).notes.map timedOfW) := by
+  apply write_read_exact_text sh hsh t0 cs hwf hs h0 hgc hm hM h charts w hw hL hstr hch ?_ ?_ ho hbp
+  · rw [trim_noWs _ (fun c hc => ((hsp.text w.offsetSec).2 c hc).1)]
+    exact hsp.parse _
+  · rw [trim_bpmsParam sh hsp]
+    exact SM.parsePairs_bpmsParam sh hsp _
+
 /-!
 what is still missing for the full `write_read_exact` for the single statement "denote (write ms) = ms":
 Proved chain: `written_beats_exact` (slotted beat = `beatAt t`) → `slot_beat_exact` (row denotes that beat) →
@@ -842,8 +871,8 @@ NOT proved (`write_read_exact` for the whole file stays `_partial`):
 * (proved since: the MSD layer `msd_renderItems` and the whole-file theorem `write_read_exact` for any number of charts);
 * (proved since: `render_items` and `write_read_exact_text` — the theorem now speaks about the text of `SM.write`
   itself; header strings with single `/` are covered);
-* `parsePairs_bpmsParam_partial`: deriving `parsePairs (bpmsParam sh bpms) = some bpms` and the `#OFFSET` line from the
-  per-number assumption `parseFloat (sh.rat q) = .ok q` (now hypotheses in applied form);
+* (proved since: `parsePairs_bpmsParam` and `write_read_exact_show` — the renderer assumption is now per number:
+  `parseFloat (sh.rat q) = .ok q` on number texts);
 * the numeric header lines (`#OFFSET`, `#SAMPLESTART`, `#SAMPLELENGTH`, bpm values): they depend on Python's float
   `repr`; the assumption to be carried is `parseFloat (show q) = .ok q` for the renderer `show` (a parameter, as in C01).
 The check evaluates the whole composition on every case (S).
